@@ -134,16 +134,34 @@ _ghost = dict(token=StrSet, fin_log=T.List(FinEvt), adv_log=T.List(AdvEvt))
 REG.define('outcome_ok(e)',
     'ite(e.exit_code == 0, e.target_state == DONE, e.target_state == FAILED and e.exit_code is not None)')
 
+def _poll_rec(ex, node, st):
+    """task_proc.poll(): an arbitrary answer (None: still running), remembered per
+    task in the ghost map `polled`"""
+    code = fresh(T.Opt(T.Int), 'exit_code')
+    tid = ex.get_var(st, 'tid')
+    m = ex.get_var(st, 'polled')
+    st.env['polled'] = Val(m.ty, m.ty.mk(z3.Store(m.ty.val(m.term), tid.term, code.term),
+                                         z3.Store(m.ty.dom(m.term), tid.term, z3.BoolVal(True))))
+    return code
+_poll_rec.mutates = ('polled',)
+
+REG.define('w_has(xs, u)', 'exists(lambda j_: 0 <= j_ < len(xs) and xs[j_].uid == u)')
+REG.define('w_distinct(xs)', 'forall(lambda a_, b_: implies(0 <= a_ < b_ < len(xs), xs[a_].uid != xs[b_].uid))')
+
 REG.spec('agent/executing/popen.py:Popen._check_running',
     params   = dict(to_watch=ETaskL),
     self     = dict(_tasks=ETaskM),
-    ghost    = _ghost,
+    ghost    = dict(_ghost, polled=T.Map(T.Str, T.Opt(T.Int))),
     locals   = dict(tasks_to_advance=ETaskL),
     effects  = {'self.publish': _publish, 'self.advance': _advance,
-                'task_proc.poll': _poll, 'task_proc.wait': ignore_call},
+                'task_proc.poll': _poll_rec, 'task_proc.wait': ignore_call},
     on_delete = {'self._tasks': _took_token},
-    requires = ['forall(lambda k: k not in token, Str)'],
-    modifies = ['self._tasks', 'to_watch', 'token', 'fin_log', 'adv_log'],
+    requires = ['forall(lambda k: k not in token, Str)', 'w_distinct(to_watch)'],
+    cuts     = {'self.publish(rpc.AGENT_UNSCHEDULE_PUBSUB, tasks_to_advance)': [
+                  ('the-release-request-names-the-collected-tasks-in-order',
+                   'len(fin_log) == len(old(fin_log)) + len(tasks_to_advance) and '
+                   'forall(lambda j: implies(0 <= j < len(tasks_to_advance), fin_log[len(old(fin_log)) + j].uid == tasks_to_advance[j].uid))')]},
+    modifies = ['self._tasks', 'to_watch', 'token', 'fin_log', 'adv_log', 'polled'],
     raises   = {'ValueError': 'True'},
     raises_weak = ['ValueError'],
     frame_on_raise = False,
@@ -158,9 +176,27 @@ REG.spec('agent/executing/popen.py:Popen._check_running',
        'forall(lambda k: implies(len(old(adv_log)) <= k < len(adv_log), adv_log[k].state == rps.AGENT_STAGING_OUTPUT_PENDING and '
        'adv_log[k].uid == fin_log[k - len(old(adv_log)) + len(old(fin_log))].uid))'),
       ('only-removals', 'forall(lambda u: implies(indom(self._tasks, u), indom(old(self._tasks), u) and at(self._tasks, u) == at(old(self._tasks), u)), Str)'),
+      # C07 "never left behind": the watch list loses a task only when its process has ended
+      ('a-task-whose-process-still-runs-stays-on-the-watch-list',
+       'forall(lambda i: implies(0 <= i < len(old(to_watch)) and old(to_watch)[i].proc is not None and at(polled, old(to_watch)[i].uid) is None, '
+       'w_has(to_watch, old(to_watch)[i].uid)))'),
+      ('a-task-whose-process-ended-and-which-the-watcher-owns-is-collected-in-this-pass',
+       'forall(lambda i: implies(0 <= i < len(old(to_watch)) and old(to_watch)[i].proc is not None and at(polled, old(to_watch)[i].uid) is not None '
+       'and indom(old(self._tasks), old(to_watch)[i].uid), '
+       'exists(lambda k: len(old(fin_log)) <= k < len(fin_log) and fin_log[k].uid == old(to_watch)[i].uid)))'),
     ],
     loops = {
       '1': ['forall(lambda u: implies(indom(self._tasks, u), indom(old(self._tasks), u) and at(self._tasks, u) == at(old(self._tasks), u)), Str)',
+            'len(seq_task) == len(old(to_watch))', 'forall(lambda i: implies(0 <= i < len(seq_task), seq_task[i] == old(to_watch)[i]))',
+            'w_distinct(to_watch)',
+            'forall(lambda j: implies(0 <= j < len(to_watch), exists(lambda i: 0 <= i < len(seq_task) and seq_task[i] == to_watch[j])))',
+            'forall(lambda i: implies(i_task <= i < len(seq_task), exists(lambda j: 0 <= j < len(to_watch) and to_watch[j] == seq_task[i])))',
+            'forall(lambda i: implies(0 <= i < i_task and seq_task[i].proc is not None and at(polled, seq_task[i].uid) is None, w_has(to_watch, seq_task[i].uid)))',
+            'forall(lambda i: implies(0 <= i < i_task and seq_task[i].proc is not None and at(polled, seq_task[i].uid) is not None and '
+            'indom(old(self._tasks), seq_task[i].uid), exists(lambda j: 0 <= j < len(tasks_to_advance) and tasks_to_advance[j].uid == seq_task[i].uid)))',
+            # deletions from the registry so far concern collected tasks only
+            'forall(lambda u: implies(indom(old(self._tasks), u) and not indom(self._tasks, u), '
+            'exists(lambda j: 0 <= j < len(tasks_to_advance) and tasks_to_advance[j].uid == u)), Str)',
             'fin_log == old(fin_log)', 'adv_log == old(adv_log)',
             # the watcher holds the token of exactly the tasks it collected
             ('token-held-exactly-for-the-collected-tasks',
